@@ -28,7 +28,9 @@ TRUSTED_BASE = [
 ]
 ASSUMPTIONS = [
     "ip texts and the mark handed to FirewallClient are ASCII without comma/blank (inet_ntop output / validated --tmark); user and group are None or numeric ids (client.main converts names with getpwnam/getgrnam)",
-    "the helper's stdout never fails (the IOError branch around the STARTED write is not modelled)",
+    "the model's dialogue ends with EOF and its STARTED write succeeds; the real helper is ALSO run (implementation-only, compared with its own EOF runs and "
+    "with the oracle) with a stdin that ends in a read error (ECONNRESET & co.: firewall.py:234-237) at every line boundary and inside lines, and with a "
+    "failing write / flush of STARTED (firewall.py:360-365) — Model/FwEnv.v + c04_read_error_is_eof / c04_started_failure_is_cut state the same for the packet-filter side",
     "a cut inside the pid digits of the GO line (client died in the middle of its single buffered write) makes the helper set up with a shortened pid and clean up at once: stated in c13_truncation, outside the property's 'after any line' quantifier",
 ]
 
@@ -154,16 +156,38 @@ class RecMethod:
 
 
 class RecStdout:
-    def __init__(self, log):
-        self.log = log
+    def __init__(self, log, fail=None):
+        self.log, self.fail = log, fail          # fail = ("write"|"flush", exception class): the client is gone
+        self.pending = False
 
     def write(self, b):
         if b == b"STARTED\n":
             self.log.append("STARTED")
+            self.pending = True
+            if self.fail and self.fail[0] == "write":
+                raise self.fail[1](32, "Broken pipe")
         return len(b)
 
     def flush(self):
-        pass
+        if self.pending:
+            self.pending = False
+            if self.fail and self.fail[0] == "flush":
+                raise self.fail[1](32, "Broken pipe")
+
+
+class ErrReader:
+    """the helper's stdin when the channel ends with a read error instead of EOF (a socketpair whose peer died with
+    unread data: ECONNRESET).  A buffered reader that meets the error while looking for the end of a line raises
+    without handing out the partial line."""
+
+    def __init__(self, data, cls):
+        self.f, self.cls = io.BytesIO(data), cls
+
+    def readline(self, *a):
+        line = self.f.readline(*a)
+        if not line.endswith(b"\n"):
+            raise self.cls(104, "Connection reset by peer")
+        return line
 
 
 FATALS = [("expected ROUTES", "ROUTES"), ("expected route but", "route"), ("expected route or NSLIST", "route-or-NSLIST"),
@@ -171,17 +195,38 @@ FATALS = [("expected ROUTES", "ROUTES"), ("expected route but", "route"), ("expe
           ("expected PORTS", "PORTS"), ("expected 4 ports", "4-ports"), ("expected GO", "GO"), ("expected command", "command")]
 
 
-def impl_main(data):
-    """run the real firewall.main on `data` followed by EOF; canonical outcome text"""
+class _HelperExit(BaseException):
+    pass
+
+
+class _Os:
+    """the name `os` inside sshuttle.firewall: the real module, except that _exit ends the simulated helper (what it would
+    still do is dropped from the record) instead of this check"""
+
+    def __init__(self, log):
+        self._log = log
+
+    def __getattr__(self, name):
+        return getattr(os, name)
+
+    def _exit(self, code=0):
+        self._log.append("DEAD")
+        raise _HelperExit(code)
+
+
+def impl_main(data, read_error=None, started_error=None):
+    """run the real firewall.main on `data` followed by EOF (or by a read error of class read_error); started_error =
+    ("write"|"flush", class): the write of STARTED fails; canonical outcome text"""
     import sshuttle.firewall as fw
     import sshuttle.helpers as helpers
     log = []
     saved = (fw.setup_daemon, fw.get_method, fw.rewrite_etc_hosts, fw.flush_systemd_dns_cache,
              helpers.logprefix, fw.sshuttle_pid)
-    fw.setup_daemon = lambda: (io.BytesIO(data), RecStdout(log))
+    fw.setup_daemon = lambda: (ErrReader(data, read_error) if read_error else io.BytesIO(data), RecStdout(log, started_error))
     fw.get_method = lambda name: RecMethod(log)
     fw.rewrite_etc_hosts = lambda hostmap, port: log.append(show_hosts(list(hostmap.items()), port))
     fw.flush_systemd_dns_cache = lambda: None
+    fw.os = _Os(log)
     try:
         try:
             fw.main("rec", False)
@@ -195,7 +240,12 @@ def impl_main(data):
                     break
         except Exception as e:    # noqa: BLE001 — every other class is an internal error
             ex = "crash:" + type(e).__name__
+        except BaseException as e:    # noqa: BLE001 — SystemExit / KeyboardInterrupt / os._exit: the helper ended itself
+            ex = "exit:" + type(e).__name__
+            if "DEAD" in log:
+                del log[log.index("DEAD"):]
     finally:
+        fw.os = os
         (fw.setup_daemon, fw.get_method, fw.rewrite_etc_hosts, fw.flush_systemd_dns_cache,
          helpers.logprefix, fw.sshuttle_pid) = saved
     return " | ".join(log + ["EXIT " + ex])
@@ -348,6 +398,8 @@ def gen_hosts(rng, maxn=6):
     return hs
 
 
+READ_ERRORS = [ConnectionResetError, OSError, TimeoutError, ConnectionAbortedError, BrokenPipeError]
+
 ODD_INTS = [b"+5", b"-1", b"1_0", b"_1", b"1_", b"007", b" 7", b"7 ", b"\t7", b"\x1c7", b"", b"x", b"0x10", b"65536",
             b"-0", b"99999999999999999999999", b"1.0", b"1e3", b"\x0b3\x0c", b"3\r"]
 
@@ -424,6 +476,8 @@ def classify(ctx, what, case, impl, m_fixed, m_asfound, valid_oracle_fails=None,
 
 def correspondence(ctx):
     rng = ctx.rng
+    import random
+    erng = random.Random("C13-channel-errors-%d" % ctx.seed)      # own stream: the generated plans stay what they were
     quick = ctx.quick()
     if (AF4, AF6) != (2, 10):
         raise RuntimeError("socket.AF_INET/AF_INET6 = %r, the model assumes (2, 10)" % ((AF4, AF6),))
@@ -533,6 +587,21 @@ def correspondence(ctx):
             rp2 = dict(rp)
             rp2.pop("finding_hint")
             ctx.violation("the helper did not reconstruct what the client sent", dict(rp2, helper=got[:2000], expected=want[:2000]))
+        # the client is gone when STARTED is written (EPIPE): the helper leaves through its clean-up path at once,
+        # exactly as if the dialogue had ended after GO (firewall.py:360-365)
+        if len(ctx.nontrivial) % 7 == 0:
+            how = erng.choice(["write", "flush"])
+            cls = erng.choice([BrokenPipeError, ConnectionResetError, OSError])
+            got_s = impl_main(d_plan + d_hosts, started_error=(how, cls))
+            want_s = expected_text(plan, [])
+            ctx.count("started_%s_fails" % how)
+            ctx.case(("started-fails", plan_tokens(plan, hosts), how, cls.__name__), nontrivial=True)
+            if not cleanup_ok(got_s):
+                ctx.violation("the helper left without undoing what it set up",
+                              {"kind": "raw", "dialogue_hex": hx(d_plan + d_hosts), "started_error": [how, cls.__name__], "helper": got_s[:1500]})
+            elif got_s != want_s:
+                ctx.disagree("helper whose STARTED %s fails with %s vs the dialogue ending after GO" % (how, cls.__name__),
+                             plan_tokens(plan, hosts)[:800], got_s[:1500], want_s[:1500], True)
 
     # ---- 2: host names of every length 1..253 (all of them in both tiers)
     base = fixed_plans[2]
@@ -598,6 +667,23 @@ def correspondence(ctx):
                 if got != want:
                     ctx.violation("a dialogue cut after a whole line is not handled as the shorter dialogue",
                                   {"kind": "cut", "dialogue_hex": hx(d), "cut": k, "helper": got[:1500], "expected": want[:1500]})
+            # the same prefix, the channel ending with a read error instead of EOF (firewall.py:226-237)
+            if k in bounds or k % 5 == t % 5 or k == 0 or pre.endswith(b"\n"):
+                cls = erng.choice(READ_ERRORS)
+                got_e = impl_main(pre, read_error=cls)
+                ctx.count("cut_read_error_" + ("at_line_boundary" if (k == 0 or pre.endswith(b"\n")) else "inside_a_line"))
+                rpe = {"kind": "cut", "dialogue_hex": hx(d), "cut": k, "read_error": cls.__name__, "helper": got_e[:1500]}
+                if k < commit and got_e.split(" | ")[:-1]:
+                    ctx.violation("the helper acted on a dialogue cut before the GO line was complete", rpe)
+                if not cleanup_ok(got_e):
+                    ctx.violation("the helper left without undoing what it set up", rpe)
+                if (k == 0 or pre.endswith(b"\n")) and got_e != got:
+                    if k in bounds and got_e.split(" | ")[:-1] != got.split(" | ")[:-1]:
+                        # (what the helper DID differs; a different way of leaving main alone is a changed mechanism)
+                        ctx.violation("a dialogue cut after a whole line is not handled as the shorter dialogue", dict(rpe, expected=got[:1500]))
+                    else:
+                        ctx.disagree("dialogue ending with %s vs the same dialogue ending with EOF" % cls.__name__, hx(pre)[:3000],
+                                     got_e[:1500], got[:1500], cleanup_ok(got_e))
             impls.append(got)
             descr.append((t, k, len(d)))
             lines += ["MAIN - " + hx(pre), "MAIN 128 " + hx(pre)]
@@ -651,7 +737,10 @@ def replay(ctx, rp):
         d = bytes.fromhex(r["dialogue_hex"]) if r["dialogue_hex"] != "-" else b""
         if kind == "cut":
             d = d[:r["cut"]]
-        got = impl_main(d)
+        import builtins
+        se = r.get("started_error")
+        got = impl_main(d, read_error=getattr(builtins, r["read_error"]) if r.get("read_error") else None,
+                        started_error=(se[0], getattr(builtins, se[1])) if se else None)
         print("helper  :", got[-700:])
         if "expected" in r:
             return got != r["expected"]
